@@ -84,7 +84,7 @@ def check(run: Run, prog: Program, cy: CyProgram, sites):
     p1_restricted(run, "U1", prog, lambda o: o.startswith("cached:Surrogates."),
                   "memoised surrogate spectrum/twins", floor=1)
     n = report_sites(run, "U2", sites, lambda s: s.kernel.name in U2_KERNELS)
-    run.floor("U2 call sites", n, 6)
+    run.floor("U2 call sites", n, 1)
     for (f, name, t, init, verdict, detail) in local_buffer_decls(cy):
         if f.name not in U2_KERNELS:
             continue
